@@ -34,7 +34,7 @@ THEOREMS = [P + t for t in (
     "two_env_loop_body", "two_env_as_one", "env_list_as_one", "env_list_contraction_exact",
     "single_env",
     "order_indep_of_commute", "order_indep_adjacent", "order_indep_perm", "rank3_commute",
-    "get_mpo_tensor_spec", "caps_wiring_consistent", "caps_close_transformed",
+    "get_mpo_tensor_spec", "transforms_stored_independently", "caps_wiring_consistent", "caps_close_transformed",
     "caps_fixed_point", "caps_fixed_point_joint",
     "dynamics_eq_joint", "finite_pt_last_bond", "dynamics_eq_joint_finite", "skip_trivial",
     "caches_safe", "get_is_function_of_current", "stored_is_last_set", "history_independent",
@@ -48,6 +48,8 @@ KEY_CAPS_SIMPLE = "caps:SimpleProcessTensor:rank-3 tensors with transforms"
 KEY_CAPS_FILE = "caps:FileProcessTensor:transforms"
 KEY_TIME_CONTROLS = "controls:float-time controls with start_time != 0"
 KEY_HISTORY = "history:%sProcessTensor:set_mpo_tensor after the step was read"
+KEY_ONE_TRANSFORM = "transforms:%sProcessTensor:exactly one transform (%s only)"
+KEY_LAYOUT = "layout:%s(initial_state):%s"
 KEY_STACK = "controls:float-time controls of one step added in non-chronological order"
 KEY_FINAL_ONLY = "controls:post-measurement controls with record_all=False"
 
@@ -196,9 +198,33 @@ def rand_system(rng, d):
     return oqupy.System(cases.rand_herm(rng, d, 0.8))
 
 
-def run_real(system, rho0, pts, n, control=None, start=0.0, record_all=True):
+LAYOUTS = ["C", "F", "T-view", "slice"]
+
+
+def as_layout(rho, layout):
+    """the same matrix in another memory layout: C-contiguous, Fortran-contiguous, a transposed
+    view of a C array (F-contiguous, not owning its data), a non-contiguous slice of a larger array"""
+    rho = np.array(rho, dtype=complex)
+    if layout == "C":
+        out = np.ascontiguousarray(rho)
+    elif layout == "F":
+        out = np.asfortranarray(rho)
+    elif layout == "T-view":
+        out = np.ascontiguousarray(rho.T).T
+    elif layout == "slice":
+        big = np.full((2 * rho.shape[0], 2 * rho.shape[1]), 7.0 + 3.0j)
+        big[::2, ::2] = rho
+        out = big[::2, ::2]
+    else:
+        raise ValueError(layout)
+    assert np.array_equal(out, rho)
+    return out
+
+
+def run_real(system, rho0, pts, n, control=None, start=0.0, record_all=True, layout="C"):
     """states of steps 0..n, or only the final one with record_all=False"""
     import oqupy
+    rho0 = as_layout(rho0, layout)
     with quiet():
         dyn = oqupy.compute_dynamics(system, initial_state=rho0, dt=DT, num_steps=n,
                                      start_time=start, process_tensor=list(pts), control=control,
@@ -356,7 +382,8 @@ STACK_OFFSETS = [-0.035, -0.02, -0.01, 0.015, 0.03, 0.04]     # |offset| < dt/2:
 
 
 def ancilla_case(rng, variant, cls="simple", n=None, e=None, timed=False, force_step_keys=False,
-                 stacked=False, chronological=False, final_only=False, force_record_all=False):
+                 stacked=False, chronological=False, final_only=False, force_record_all=False,
+                 layout="C"):
     """build one ancilla process tensor + the inputs of compute_dynamics; returns a dict"""
     import oqupy
     from oqupy import operators as op
@@ -364,8 +391,10 @@ def ancilla_case(rng, variant, cls="simple", n=None, e=None, timed=False, force_
     d = 2
     e = e or rng.choice([1, 2, 2])
     n = n or rng.randrange(1, 4)
+    # exactly one transform: the tensors are stored with only the input (output) leg in another basis
+    base = {"rank4-in-only": "rank4-basis", "rank4-out-only": "rank4-basis"}.get(variant, variant)
     kind = {"rank4": rng.choice(["unitary", "channel"]), "rank4-basis": rng.choice(["unitary", "channel"]),
-            "rank3": "dephasing", "rank3-unitary-basis": "dephasing", "rank3-pauli": "pauli"}[variant]
+            "rank3": "dephasing", "rank3-unitary-basis": "dephasing", "rank3-pauli": "pauli"}[base]
     kraus = rand_joint(rng, e, d, n, kind)
     rhoE = cases.rand_dm(rng, e)
     rho0 = cases.rand_dm(rng, d)
@@ -373,11 +402,16 @@ def ancilla_case(rng, variant, cls="simple", n=None, e=None, timed=False, force_
     Us = [joint_superop(ks, e, d) for ks in kraus]
     mpos = ancilla_mpos(Us, rhoE, e, d)
     tin = tout = None
-    if variant == "rank4-basis":
+    if base == "rank4-basis":
         m = np.array([[rng.gauss(0, 1) + 1j * rng.gauss(0, 1) for _ in range(4)] for _ in range(4)])
         m = m + 2.5 * np.eye(4)
         tin, tout = m, np.linalg.inv(m)
-        mpos = store_in_basis(mpos, tin, tout, False)
+        if variant == "rank4-in-only":
+            tout = None
+        elif variant == "rank4-out-only":
+            tin = None
+        mpos = store_in_basis(mpos, np.eye(4) if tin is None else tin,
+                              np.eye(4) if tout is None else tout, False)
     elif variant == "rank3":
         mpos = store_in_basis(mpos, np.eye(4), np.eye(4), True)
     elif variant == "rank3-unitary-basis":
@@ -441,7 +475,9 @@ def ancilla_case(rng, variant, cls="simple", n=None, e=None, timed=False, force_
     record_all = not (final_only and not force_record_all)
     return dict(d=d, e=e, n=n, variant=variant, cls=cls, kraus=kraus, Us=Us, rhoE=rhoE, rho0=rho0,
                 ham=ham, spec=spec, ctrl_ops=ctrl_ops, control=ctl, start=start, record_all=record_all,
+                layout=layout,
                 desc={"variant": variant, "class": cls, "d": d, "e": e, "n": n, "joint": kind,
+                      "initial_state_layout": layout,
                       "start_time": start, "record_all": record_all,
                       "controls": sorted("%d%s%s" % (
                           k, "post" if p else "pre",
@@ -456,7 +492,7 @@ def ancilla_error(case):
     pt = build_pt(case["spec"], case["d"], case["n"], case["cls"])
     try:
         real = run_real(oqupy.System(case["ham"]), case["rho0"], [pt], case["n"], case["control"],
-                        case.get("start", 0.0), case.get("record_all", True))
+                        case.get("start", 0.0), case.get("record_all", True), case.get("layout", "C"))
     finally:
         drop_pt(pt)
     ref = dense_joint(case["kraus"], case["rhoE"], case["rho0"], case["ham"], case["ctrl_ops"],
@@ -568,7 +604,9 @@ def correspondence(res, tier, rng):
         control, cdesc = rand_control(rng, d, n, start)
         rho0 = cases.rand_dm(rng, d)
         rec_all = (c % 5 != 4)
-        real = run_real(system, rho0, pts, n, control, start, rec_all)
+        layout = LAYOUTS[c % len(LAYOUTS)]
+        real = run_real(system, rho0, pts, n, control, start, rec_all, layout)
+        res.count("initial_state_layout=" + layout)
         # history: overwrite one stored tensor of an object that has been contracted (its tensors
         # and caps were read), recompute the caps, contract again -- against a FRESH object
         # holding the same stored tensors (and, below, against the model on the fresh one's tensors)
@@ -582,7 +620,7 @@ def correspondence(res, tier, rng):
             pts[j].compute_caps()
             again = run_real(system, rho0, pts, n, control, start, rec_all)
             pts = [build_pt(s_, d, n) for s_ in specs]
-            real = run_real(system, rho0, pts, n, control, start, rec_all)
+            real = run_real(system, rho0, pts, n, control, start, rec_all, layout)
             herr = max(np.abs(a - b).max() for a, b in zip(again, real)) \
                 / max(1.0, max(np.abs(x).max() for x in real))
             res.count("history:overwrite-then-contract")
@@ -597,7 +635,7 @@ def correspondence(res, tier, rng):
         props, controls = system_parts(system, control, start)
         ls, tensors = multi_lines(pts, n, L, rho0, props, controls)
         desc = {"n": n, "envs": [s["kind"] for s in specs], "start_time": start,
-                "record_all": rec_all,
+                "record_all": rec_all, "initial_state_layout": layout,
                 "bond_dims": [s.get("dims") for s in specs], "controls": cdesc}
         res.count("record_all=%s" % rec_all)
         checks.append((len(lines), "multi", (desc, real)))
@@ -664,9 +702,13 @@ def correspondence(res, tier, rng):
     # D. ancilla process tensors: real compute_dynamics vs ptOfJoint vs joint evolution
     nj = 12 if tier == "quick" else 60
     for c in range(nj):
-        case = ancilla_case(rng, rng.choice(["rank4", "rank4", "rank3"]),
+        case = ancilla_case(rng, (["rank4-in-only", "rank4-out-only"][(c // 6) % 2] if c % 6 == 0
+                                  else rng.choice(["rank4", "rank4", "rank3"])),
+                            cls=("file" if c % 12 == 6 else "simple"),
                             e=(1 if c % 4 == 3 else 2), n=rng.randrange(1, 4 if tier != "quick" else 3),
-                            timed=(c % 3 != 2), stacked=(c % 4 == 1), final_only=(c % 5 == 3))
+                            timed=(c % 3 != 2), stacked=(c % 4 == 1), final_only=(c % 5 == 3),
+                            layout=LAYOUTS[(c + 1) % len(LAYOUTS)])
+        res.count("ancilla:initial_state_layout=" + case["layout"])
         err, real, ref = ancilla_error(case)
         res.count("ancilla:record_all=%s" % case["record_all"])
         if c % 4 == 1:
@@ -854,6 +896,8 @@ def oracle_ancilla(res, gen_seed, variant, cls, key=None, wide=False, timed=Fals
                                 final_only=final_only)
             if ancilla_error(twin)[0] <= ANCILLA_TOL:
                 key = KEY_TIME_CONTROLS
+        if key is None and variant in ("rank4-in-only", "rank4-out-only"):
+            key = KEY_ONE_TRANSFORM % (cls.capitalize(), variant.split("-")[1])
         if key is None:
             if variant.startswith("rank3") and case["spec"]["tin"] is not None and cls == "simple":
                 key = KEY_CAPS_SIMPLE
@@ -874,6 +918,72 @@ def oracle_ancilla(res, gen_seed, variant, cls, key=None, wide=False, timed=Fals
                               "at step(s) %s" % (variant, cls.capitalize(), case["start"], steps)})
         return True
     return False
+
+
+def oracle_layout(res, gen_seed, key=None, only=None):
+    """the initial state in every memory layout (same values, complex coherences), for the three
+    entry points that vectorise it: compute_dynamics against the dense joint evolution,
+    compute_dynamics_with_field / compute_gradient_and_dynamics against their own result for the
+    C-contiguous copy"""
+    import oqupy
+    from oqupy import operators as op
+    from oqupy.gradient import compute_gradient_and_dynamics
+    found = False
+    for layout in LAYOUTS[1:]:
+        if only and only[1] != layout:
+            continue
+        rng = random.Random(gen_seed)
+        case = ancilla_case(rng, "rank4", "simple", n=2, e=2, layout=layout)
+        rho = case["rho0"]
+        if abs(rho[0, 1].imag) < 0.05:               # make sure the transpose is another matrix
+            rho = rho + np.array([[0, 0.2j], [-0.2j, 0]])
+            case["rho0"] = rho
+        n = case["n"]
+        pt = build_pt(case["spec"], 2, n)
+
+        def field_run(lay):
+            tsys = oqupy.TimeDependentSystemWithField(
+                lambda t, a: 0.5 * op.sigma("x") + 0.2 * np.real(a) * op.sigma("z"))
+            mfs = oqupy.MeanFieldSystem(
+                [tsys], lambda t, states, a: -0.1j * a + 0.3 * np.trace(op.sigma("y") @ states[0]))
+            with quiet():
+                dyn = oqupy.compute_dynamics_with_field(
+                    mfs, initial_field=0.4 + 0.1j, initial_state_list=[as_layout(rho, lay)], dt=DT,
+                    num_steps=n, process_tensor_list=[pt], progress_type="silent")
+            return [np.array(st).reshape(-1) for st in dyn.system_states_list[0]] \
+                if hasattr(dyn, "system_states_list") else \
+                [np.array(st).reshape(-1) for st in dyn.system_dynamics[0].states]
+
+        def grad_run(lay):
+            psys = oqupy.ParameterizedSystem(lambda x: x * op.sigma("x") + 0.3 * op.sigma("z"))
+            with quiet():
+                _, dyn = compute_gradient_and_dynamics(
+                    system=psys, parameters=np.full((2 * n, 1), 0.7), initial_state=as_layout(rho, lay),
+                    target_derivative=op.spin_dm("y+"), process_tensors=[pt], dt=DT, num_steps=n,
+                    progress_type="silent")
+            return [np.array(st).reshape(-1) for st in dyn.states]
+        runs = []
+        if not only or only[0] == "compute_dynamics":
+            err, real, ref = ancilla_error(case)
+            runs.append(("compute_dynamics", err))
+        for name, f in (("compute_dynamics_with_field", field_run),
+                        ("compute_gradient_and_dynamics", grad_run)):
+            if only and only[0] != name:
+                continue
+            a, b = f("C"), f(layout)
+            runs.append((name, max(np.abs(x - y).max() for x, y in zip(a, b))))
+        for name, err in runs:
+            if not err <= ANCILLA_TOL:
+                found = True
+                res.fail(key or KEY_LAYOUT % (name, layout),
+                         {"oracle": "layout", "gen_seed": gen_seed, "entry_point": name, "layout": layout,
+                          "initial_state": [[[z.real, z.imag] for z in row] for row in np.asarray(rho)],
+                          "max_state_difference": float(err), "case": case["desc"],
+                          "how": "%s with the initial state passed as a %s array (same values as the "
+                                 "C-contiguous one): the states differ by %g from %s"
+                                 % (name, layout, err, "the traced joint evolution"
+                                    if name == "compute_dynamics" else "the run with the C-contiguous copy")})
+    return found
 
 
 def oracle_history(res, gen_seed, variant, cls, key=None):
@@ -997,6 +1107,14 @@ def search(res):
             found = oracle_ancilla(res, rng.randrange(10 ** 9), variant, "simple", timed=True) or found
             if found:
                 break
+    # initial states in non-C memory layouts, three entry points
+    oracle_layout(res, rng.randrange(10 ** 9))
+    # process tensors with exactly one transform
+    for variant in ("rank4-in-only", "rank4-out-only"):
+        for cls in ("simple", "file"):
+            for t in range(2):
+                if oracle_ancilla(res, rng.randrange(10 ** 9), variant, cls):
+                    break
     # several float-time controls rounding to one step, inserted latest-first (non-commuting maps);
     # record_all=False with post-measurement controls (final state only)
     for kw in (dict(stacked=True, timed=True), dict(stacked=True), dict(final_only=True),
@@ -1025,6 +1143,8 @@ def replay_case(res, payload):
                               stacked=fi.get("stacked", False), final_only=fi.get("final_only", False))
     if fi.get("oracle") == "history":
         return oracle_history(res, fi["gen_seed"], fi["variant"], fi["class"], key)
+    if fi.get("oracle") == "layout":
+        return oracle_layout(res, fi["gen_seed"], key, only=(fi["entry_point"], fi["layout"]))
     return False
 
 
